@@ -121,10 +121,21 @@ def run_entry(rec, name, funcs, call, native, expect_random=True, allow_shared=N
         a1 = {a for _, ats in atoms_of(rets[0][0]) for a in ats}
         a2 = {a for _, ats in atoms_of(rets[0][1]) for a in ats}
         bad = [a for a in a1 | a2 if a.args[0] != ghost.Stream(SEED) and not any(isinstance(x, ghost.UI) and x.args[0] == ghost.Stream(SEED) for x in a.args[0].args)]
+        msg = None
         if bad:
-            return ('undecided', 'ghost provenance', 'a generator passed as seed is not used for the draw %s' % (bad[0],))
-        if a1 & a2:
-            return ('undecided', 'ghost provenance', 'two successive calls with the same generator share the draw %s (generator restarted)' % (sorted(a1 & a2, key=str)[0],))
+            msg = 'a generator passed as seed is not used for the draw %s' % (bad[0],)
+        elif a1 & a2:
+            msg = 'two successive calls with the same generator share the draw %s (generator restarted)' % (sorted(a1 & a2, key=str)[0],)
+        if msg:
+            # native replay: the same calls with numpy generators (equal generators under different global states must agree)
+            GEN_MODE[0] = True
+            try:
+                wit = native('seed.generator')
+            finally:
+                GEN_MODE[0] = False
+            if wit is None:
+                return ('undecided', 'ghost provenance', msg + ' (not reproduced natively)')
+            return ('refuted', 'ghost provenance; native replay', msg + ' | native: ' + wit['what'], wit)
         return ('discharged', 'ghost provenance', 'generator used and advanced (%d + %d disjoint draws)' % (len(a1), len(a2)))
     if expect_random and generator_seed:
         rec.run(name + '/seed.generator', funcs, klass, generator)
@@ -180,9 +191,15 @@ def models(rec):
               lambda kind: native_repeat(lambda sd: real.CovariatePopulationModel(real.GaussianModel(), real.LinearCovariateModel(n_cov=1)).sample([0.5, 1.0, 0.1, 0.0], [[1.0], [2.0]], n_samples=2, seed=sd)))
 
 
+GEN_MODE = [False]          # native replays of the seed.generator obligation pass numpy generators instead of integer seeds
+
+
 def native_repeat(f, seeds=(3, 3, 4)):
     """same seed twice under different global states must agree; different seeds must differ"""
     import chi  # noqa
+    if GEN_MODE[0]:
+        f0 = f
+        f = lambda sd: f0(np.random.default_rng(sd))
     np.random.seed(101)
     a = np.asarray(f(seeds[0]), dtype=float)
     np.random.seed(202)
@@ -280,6 +297,9 @@ def predictive(rec):
         Toy = native_toy(2, 1)
         m = real.PredictiveModel(Toy(), [real.GaussianErrorModel(), real.GaussianErrorModel()])
         if kind == 'seed.independent':
+            rep = m.sample([1.0, 1.0, 1.0], [2.0, 1.0, 2.0], n_samples=60, seed=12, return_df=False)
+            if np.array_equal(rep[0, 1], rep[0, 2]) or abs(float(np.corrcoef(rep[0, 1], rep[0, 2])[0, 1])) > 0.9:
+                return {'what': 'times [2, 1, 2]: the two measurements at the replicate time carry the same noise in all 60 samples', 'expected': 'independent noise', 'observed': rep[0, 1:3, :5].tolist()}
             smp = m.sample([1.0, 1.0, 1.0], [1.0, 2.0, 3.0], n_samples=400, seed=11, return_df=False)
             n0 = (smp[0] - smp[0].mean()).flatten()
             n1 = (smp[1] - smp[1].mean()).flatten()
@@ -290,6 +310,8 @@ def predictive(rec):
             return None
         return native_repeat(lambda sd: m.sample([1.0, 1.0, 1.0], [1.0, 2.0], n_samples=2, seed=sd, return_df=False))
     run_entry(rec, 'PredictiveModel', ['chi._predictive_models.PredictiveModel.sample'], lambda sd: pm.sample(par, [2.0, 1.0], n_samples=2, seed=sd, return_df=False), nat_pm)
+    # replicate measurement times: every measurement still has noise of its own
+    run_entry(rec, 'PredictiveModel(replicate times)', ['chi._predictive_models.PredictiveModel.sample'], lambda sd: pm.sample(par, [2.0, 1.0, 2.0], n_samples=2, seed=sd, return_df=False), nat_pm)
 
     # PopulationPredictiveModel: pop dims = 1 mechanistic + 1 error parameter
     Mech1 = mech_stub(chi_sym, 1, 1)
